@@ -242,17 +242,25 @@ Proof.
   rewrite Rpower_plus, Rpower_Ropp. reflexivity.
 Qed.
 Definition nrm2 (Y : list (core R)) : R := sqrt (mul_scalar OR Y Y).   (* ||Y|| *)
-Theorem accuracy_spec big tiny Y1 Y2 : 0 < tiny ->
-  let h1 := snd (norm_stab OR ilog2 thr (sub OR Y1 Y2)) in
-  let h2 := snd (norm_stab OR ilog2 thr Y2) in
-  let z2 := fst (norm_stab OR ilog2 thr Y2) in
-  let r := accuracy OR ilog2 isinf thr big tiny Y1 Y2 in
-  ((h1 - h2 > 1000)%Z -> r = big) /\
-  ((h1 - h2 < -1000)%Z -> r = 0) /\
-  ((-1000 <= h1 - h2 <= 1000)%Z -> Rabs z2 < tiny -> r = -1) /\
-  ((-1000 <= h1 - h2 <= 1000)%Z -> tiny <= Rabs z2 -> r = nrm2 (sub OR Y1 Y2) / nrm2 Y2).
+Lemma Reqb_true a b : Reqb a b = true <-> a = b.
+Proof. unfold Reqb. destruct (Req_EM_T a b); split; auto; discriminate. Qed.
+(* the first test of accuracy (commit 0f9009d): z1 == 0 and |z2| >= tiny *)
+Lemma guard_true (tiny z1 z2 : R) :
+  oeqb OR z1 (o0 OR) && oleb OR tiny (oabs OR z2) = true <-> z1 = 0 /\ tiny <= Rabs z2.
 Proof.
-  intros Ht. cbv zeta. unfold accuracy, accuracy_of.
+  cbn [oeqb oleb oabs o0 OR]. rewrite andb_true_iff, Reqb_true, Rleb_true. tauto.
+Qed.
+(* the tail of accuracy (= the whole function before 0f9009d): its four branches *)
+Lemma accuracy_tail_spec big tiny Y1 Y2 : 0 < tiny ->
+  let zp1 := norm_stab OR ilog2 thr (sub OR Y1 Y2) in
+  let zp2 := norm_stab OR ilog2 thr Y2 in
+  let r := accuracy_tail OR isinf big tiny (fst zp1) (snd zp1) (fst zp2) (snd zp2) in
+  ((snd zp1 - snd zp2 > 1000)%Z -> r = big) /\
+  ((snd zp1 - snd zp2 < -1000)%Z -> r = 0) /\
+  ((-1000 <= snd zp1 - snd zp2 <= 1000)%Z -> Rabs (fst zp2) < tiny -> r = -1) /\
+  ((-1000 <= snd zp1 - snd zp2 <= 1000)%Z -> tiny <= Rabs (fst zp2) -> r = nrm2 (sub OR Y1 Y2) / nrm2 Y2).
+Proof.
+  intros Ht. cbv zeta. unfold accuracy_tail.
   pose proof (norm_stab_spec (sub OR Y1 Y2)) as (P1 & N1 & _). pose proof (norm_stab_spec Y2) as (P2 & N2 & _).
   cbv zeta in N1, N2, P1, P2.
   set (zp1 := norm_stab OR ilog2 thr (sub OR Y1 Y2)) in *. set (zp2 := norm_stab OR ilog2 thr Y2) in *.
@@ -271,6 +279,56 @@ Proof.
     assert (fst zp2 <> 0). { intros E0. rewrite E0, Rabs_R0 in Hz. lra. }
     assert (0 < Rpower 2 (IZR (snd zp2) / 2)) by (unfold Rpower; apply exp_pos).
     field. split; lra.
+Qed.
+(* accuracy (Model/Stab.accuracy, current code): every branch.
+   z1 = 0 (the difference vanishes) with a reference of non-negligible mantissa gives 0, which IS the relative distance;
+   otherwise the exponent difference decides between the saturation values and the quotient. *)
+Theorem accuracy_spec big tiny Y1 Y2 : 0 < tiny ->
+  let z1 := fst (norm_stab OR ilog2 thr (sub OR Y1 Y2)) in
+  let h1 := snd (norm_stab OR ilog2 thr (sub OR Y1 Y2)) in
+  let h2 := snd (norm_stab OR ilog2 thr Y2) in
+  let z2 := fst (norm_stab OR ilog2 thr Y2) in
+  let r := accuracy OR ilog2 isinf thr big tiny Y1 Y2 in
+  (z1 = 0 -> tiny <= Rabs z2 -> r = 0 /\ nrm2 (sub OR Y1 Y2) = 0) /\
+  (~ (z1 = 0 /\ tiny <= Rabs z2) -> (h1 - h2 > 1000)%Z -> r = big) /\
+  (~ (z1 = 0 /\ tiny <= Rabs z2) -> (h1 - h2 < -1000)%Z -> r = 0) /\
+  ((-1000 <= h1 - h2 <= 1000)%Z -> Rabs z2 < tiny -> r = -1) /\
+  ((-1000 <= h1 - h2 <= 1000)%Z -> tiny <= Rabs z2 -> r = nrm2 (sub OR Y1 Y2) / nrm2 Y2).
+Proof.
+  intros Ht. cbv zeta. pose proof (accuracy_tail_spec big tiny Y1 Y2 Ht) as T. cbv zeta in T.
+  destruct T as (T1 & T2 & T3 & T4).
+  pose proof (norm_stab_spec (sub OR Y1 Y2)) as (_ & N1 & _). cbv zeta in N1.
+  unfold accuracy, accuracy_of.
+  set (zp1 := norm_stab OR ilog2 thr (sub OR Y1 Y2)) in *. set (zp2 := norm_stab OR ilog2 thr Y2) in *.
+  assert (Z0 : fst zp1 = 0 -> nrm2 (sub OR Y1 Y2) = 0).
+  { intros E. unfold nrm2. rewrite <- N1, E. ring. }
+  destruct (oeqb OR (fst zp1) (o0 OR) && oleb OR tiny (oabs OR (fst zp2))) eqn:G.
+  - apply guard_true in G. destruct G as [G1 G2]. cbn [o0 OR]. split; [|split; [|split; [|split]]].
+    + intros _ _. split; [reflexivity|exact (Z0 G1)].
+    + intros N. exfalso. apply N. auto.
+    + intros N. exfalso. apply N. auto.
+    + intros _ Hz. lra.
+    + intros _ _. rewrite (Z0 G1). unfold Rdiv. ring.
+  - assert (NG : ~ (fst zp1 = 0 /\ tiny <= Rabs (fst zp2))).
+    { intros H. apply guard_true in H. rewrite H in G. discriminate. }
+    split; [|split; [|split; [|split]]].
+    + intros A B. exfalso. apply NG. auto.
+    + intros _ H. apply T1. exact H.
+    + intros _ H. apply T2. exact H.
+    + intros H Hz. apply T3; assumption.
+    + intros H Hz. apply T4; assumption.
+Qed.
+(* equal tensors (more generally ||Y1 - Y2|| = 0) against a reference with a non-negligible mantissa: the result is 0,
+   whatever exponent the vanishing product was left with *)
+Theorem accuracy_zero_difference big tiny Y1 Y2 : 0 < tiny ->
+  tiny <= Rabs (fst (norm_stab OR ilog2 thr Y2)) -> nrm2 (sub OR Y1 Y2) = 0 ->
+  accuracy OR ilog2 isinf thr big tiny Y1 Y2 = 0.
+Proof.
+  intros Ht Hz Hn. pose proof (accuracy_spec big tiny Y1 Y2 Ht) as S. cbv zeta in S. destruct S as (S1 & _).
+  apply S1; [|exact Hz].
+  pose proof (norm_stab_spec (sub OR Y1 Y2)) as (_ & N1 & _). cbv zeta in N1. unfold nrm2 in Hn. rewrite Hn in N1.
+  assert (0 < Rpower 2 (IZR (snd (norm_stab OR ilog2 thr (sub OR Y1 Y2))) / 2)) by (unfold Rpower; apply exp_pos).
+  nra.
 Qed.
 End StabR.
 
@@ -364,4 +422,96 @@ Proof.
     + rewrite E. lra.
     + left. apply exp_increasing. nra.
   - rewrite Ev at 1. apply exp_increasing. nra.
+Qed.
+
+(* ---------- the mantissa of norm(use_stab) (default threshold 0): 0 or in [sqrt lo, sqrt 2) ---------- *)
+Theorem norm_stab_mantissa (ilog2 : R -> Z) lo (Y : list (core R)) d0 : ilog2_ok lo ilog2 ->
+  Y <> [] -> cr2 (last Y d0) = 1%nat ->
+  let z := fst (norm_stab OR ilog2 0 Y) in z = 0 \/ (0 < z /\ lo <= z * z < 2).
+Proof.
+  intros Hl N E. cbv zeta.
+  pose proof (mul_scalar_stab_mantissa ilog2 0 lo Y Y d0 d0 Hl (Rle_refl 0) N eq_refl E E) as M. cbv zeta in M.
+  unfold norm_stab. cbn [fst]. set (v := fst (mul_scalar_stab OR ilog2 0 Y Y)) in *.
+  cbn [oltb osqrt o0 OR]. destruct (Rltb 0 v) eqn:B; [|left; reflexivity].
+  apply Rltb_true in B. right. split; [apply sqrt_lt_R0; exact B|].
+  rewrite sqrt_sqrt by lra. destruct M as [M|M].
+  - pose proof (Rabs_pos_lt v ltac:(lra)). lra.
+  - rewrite Rabs_right in M by lra. exact M.
+Qed.
+
+(* ---------- the saturation branches of accuracy are taken only beyond 2^+-500 ----------
+   value = z * 2^(h/2) with a mantissa 1 <= z^2 < 2 (what norm(use_stab) returns for a non-zero tensor):
+   h1 - h2 > 1000 forces value1 / value2 > 2^500, h1 - h2 < -1000 forces value1 / value2 < 2^-500 *)
+Lemma half_pow_sq z h : 0 < z -> z * Rpower 2 (IZR h / 2) = sqrt (z * z * powerRZ 2 h).
+Proof.
+  intros Hz. rewrite Rpower_half. rewrite sqrt_mult_alt by nra. rewrite sqrt_square by lra. reflexivity.
+Qed.
+Theorem saturation_sound z1 h1 z2 h2 : 0 < z1 -> 1 <= z1 * z1 < 2 -> 0 < z2 -> 1 <= z2 * z2 < 2 ->
+  ((h1 - h2 > 1000)%Z -> powerRZ 2 500 < (z1 * Rpower 2 (IZR h1 / 2)) / (z2 * Rpower 2 (IZR h2 / 2))) /\
+  ((h1 - h2 < -1000)%Z -> (z1 * Rpower 2 (IZR h1 / 2)) / (z2 * Rpower 2 (IZR h2 / 2)) < powerRZ 2 (-500)).
+Proof.
+  intros P1 M1 P2 M2. rewrite !half_pow_sq by assumption.
+  pose proof (p2_pos h1) as A1. pose proof (p2_pos h2) as A2.
+  set (a := z1 * z1 * powerRZ 2 h1). set (b := z2 * z2 * powerRZ 2 h2).
+  assert (Ha : 0 < a) by (unfold a; nra). assert (Hb : 0 < b) by (unfold b; nra).
+  rewrite <- sqrt_div_alt by exact Hb.
+  assert (S500 : powerRZ 2 500 = sqrt (powerRZ 2 1000)).
+  { replace 1000%Z with (500 + 500)%Z by reflexivity. rewrite powerRZ_add by exact two_neq0.
+    rewrite sqrt_square; [reflexivity|]. pose proof (p2_pos 500). lra. }
+  assert (Sm500 : powerRZ 2 (-500) = sqrt (powerRZ 2 (-1000))).
+  { replace (-1000)%Z with (-500 + -500)%Z by reflexivity. rewrite powerRZ_add by exact two_neq0.
+    rewrite sqrt_square; [reflexivity|]. pose proof (p2_pos (-500)). lra. }
+  split; intros H.
+  - rewrite S500. apply sqrt_lt_1_alt. split; [pose proof (p2_pos 1000); lra|].
+    apply (Rmult_lt_reg_r b); [exact Hb|]. unfold Rdiv. rewrite Rmult_assoc, Rinv_l by lra. rewrite Rmult_1_r.
+    assert (E : powerRZ 2 h1 = powerRZ 2 (h1 - h2 - 1001) * (powerRZ 2 1001 * powerRZ 2 h2)).
+    { rewrite <- !powerRZ_add by exact two_neq0. f_equal. lia. }
+    pose proof (p2_mono 0 (h1 - h2 - 1001) ltac:(lia)) as G. rewrite powerRZ_O in G.
+    assert (T : powerRZ 2 1001 = 2 * powerRZ 2 1000).
+    { replace 1001%Z with (1000 + 1)%Z by reflexivity. apply p2_succ. }
+    pose proof (p2_pos 1000) as Q. unfold a, b. rewrite E, T.
+    set (g := powerRZ 2 (h1 - h2 - 1001)) in *. set (q := powerRZ 2 1000) in *. set (c := powerRZ 2 h2) in *.
+    set (w := q * c). assert (Hw : 0 < w) by (unfold w; nra).
+    assert (W1 : z2 * z2 * w < 2 * w) by nra.
+    assert (W2 : 2 * w <= g * (2 * w)) by nra.
+    assert (W3 : g * (2 * w) <= z1 * z1 * (g * (2 * w))) by (assert (0 < g * (2 * w)) by nra; nra).
+    replace (q * (z2 * z2 * c)) with (z2 * z2 * w) by (unfold w; ring).
+    replace (z1 * z1 * (g * (2 * q * c))) with (z1 * z1 * (g * (2 * w))) by (unfold w; ring).
+    lra.
+  - rewrite Sm500. apply sqrt_lt_1_alt. split; [apply Rlt_le; apply Rdiv_lt_0_compat; assumption|].
+    apply (Rmult_lt_reg_r b); [exact Hb|]. unfold Rdiv. rewrite Rmult_assoc, Rinv_l by lra. rewrite Rmult_1_r.
+    assert (E : powerRZ 2 h2 = powerRZ 2 (h2 - h1 - 1001) * (powerRZ 2 1001 * powerRZ 2 h1)).
+    { rewrite <- !powerRZ_add by exact two_neq0. f_equal. lia. }
+    pose proof (p2_mono 0 (h2 - h1 - 1001) ltac:(lia)) as G. rewrite powerRZ_O in G.
+    assert (T : powerRZ 2 1001 = 2 * powerRZ 2 1000).
+    { replace 1001%Z with (1000 + 1)%Z by reflexivity. apply p2_succ. }
+    assert (I : powerRZ 2 (-1000) * powerRZ 2 1000 = 1).
+    { rewrite <- powerRZ_add by exact two_neq0. reflexivity. }
+    pose proof (p2_pos 1000) as Q. pose proof (p2_pos (-1000)) as Qm. unfold a, b. rewrite E, T.
+    set (g := powerRZ 2 (h2 - h1 - 1001)) in *. set (q := powerRZ 2 1000) in *. set (qm := powerRZ 2 (-1000)) in *.
+    set (c := powerRZ 2 h1) in *.
+    (* z1^2 c < 2 c = qm * (2 q c) <= qm * z2^2 * g * 2 q c *)
+    set (u := 2 * q * c). assert (Hu : 0 < u) by (unfold u; nra).
+    assert (V1 : z1 * z1 * c < 2 * c) by nra.
+    assert (V2 : 2 * c = qm * u) by (unfold u; replace (qm * (2 * q * c)) with (2 * c * (qm * q)) by ring; rewrite I; ring).
+    assert (V3 : u <= g * u) by nra.
+    assert (V4 : g * u <= z2 * z2 * (g * u)) by (assert (0 < g * u) by nra; nra).
+    assert (V5 : qm * u <= qm * (z2 * z2 * (g * u))) by (apply Rmult_le_compat_l; lra).
+    lra.
+Qed.
+(* on tensors: whenever accuracy takes a saturation branch on mantissas of the kind norm(use_stab) returns for non-zero
+   tensors (norm_stab_mantissa with the exact log2 contract), the true relative distance is beyond 2^+-500 *)
+Theorem accuracy_saturation_sound (ilog2 : R -> Z) (thr : R) (Y1 Y2 : list (core R)) :
+  let z1 := fst (norm_stab OR ilog2 thr (sub OR Y1 Y2)) in
+  let h1 := snd (norm_stab OR ilog2 thr (sub OR Y1 Y2)) in
+  let z2 := fst (norm_stab OR ilog2 thr Y2) in
+  let h2 := snd (norm_stab OR ilog2 thr Y2) in
+  0 < z1 -> 1 <= z1 * z1 < 2 -> 0 < z2 -> 1 <= z2 * z2 < 2 ->
+  ((h1 - h2 > 1000)%Z -> powerRZ 2 500 < nrm2 (sub OR Y1 Y2) / nrm2 Y2) /\
+  ((h1 - h2 < -1000)%Z -> nrm2 (sub OR Y1 Y2) / nrm2 Y2 < powerRZ 2 (-500)).
+Proof.
+  cbv zeta. intros P1 M1 P2 M2.
+  pose proof (norm_stab_spec ilog2 thr (sub OR Y1 Y2)) as (_ & N1 & _).
+  pose proof (norm_stab_spec ilog2 thr Y2) as (_ & N2 & _). cbv zeta in N1, N2.
+  unfold nrm2. rewrite <- N1, <- N2. apply saturation_sound; assumption.
 Qed.
